@@ -21,7 +21,7 @@ from harness.common import cps, uncps, REPO
 from harness.props import c19
 from harness.props.c18 import run_main
 
-BRIDGE = ('Gemato.Bridge.FastGen', 'Gemato.Bridge.FastGenSrc', 'Gemato.Bridge.Profile', 'Gemato.Bridge.SrcUpdate', 'Gemato.Bridge.SrcLoader', 'Gemato.Bridge.SrcWalk', 'Gemato.Bridge.SrcText')
+BRIDGE = ('Gemato.Bridge.FastGen', 'Gemato.Bridge.FastGenSrc', 'Gemato.Bridge.Profile', 'Gemato.Bridge.SrcUpdate', 'Gemato.Bridge.SrcLoader', 'Gemato.Bridge.SrcWalk', 'Gemato.Bridge.SrcText', 'Gemato.Bridge.SrcProfile', 'Gemato.Bridge.SrcCodec', 'Gemato.Bridge.SrcHash')
 PROPS = ['Gemato.Props.C20']
 HASHES = ['BLAKE2B', 'SHA512']
 
